@@ -331,9 +331,34 @@ def shared_builder_chains() -> list:
     return out
 
 
+def lookalike_builders() -> list:
+    """Two or three *different* builders that print alike (same actor name and visible hyper-parameters, different opaque
+    content - like two lambdas) applied to the very same input: every one of them has to run."""
+    out = []
+    for n in (2, 3):
+        groups = [{'kind': 'fn', 'nin': 0, 'nout': 1, 'hp': {}, 'name': 'g0', 'opaque': 0}]
+        nodes = [{'g': 0, 'mode': 'apply', 'in': []}]
+        for k in range(1, n + 1):
+            g = {'kind': 'fn', 'nin': 1, 'nout': 1, 'hp': {'a': 2}, 'name': 'g1', 'opaque': k}
+            if k > 1:
+                g['twin_of'] = 1
+            groups.append(g)
+            nodes.append({'g': k, 'mode': 'apply', 'in': [[0, 0]]})
+        groups.append({'kind': 'fn', 'nin': n, 'nout': 1, 'hp': {}, 'name': 'gt', 'opaque': 9})
+        nodes.append({'g': n + 1, 'mode': 'apply', 'in': [[k, 0] for k in range(1, n + 1)]})
+        nwire = sum(len(x['in']) for x in nodes)
+        out.append({'groups': groups, 'nodes': nodes, 'tail': n + 1, 'wire': list(range(nwire)), 'assets': None, 'fail': 0})
+    return out
+
+
 def enumerate_extra(ctx, shard, nshards):
     if shard == 0:
+        ctx.campaign = 'dask'
+        for spec in lookalike_builders():
+            check_dask(ctx, spec)
         ctx.campaign = 'pyfunc'
+        for spec in lookalike_builders():
+            check_pyfunc(ctx, spec)
         for spec in shared_builder_chains():
             check_pyfunc(ctx, spec)
         ctx.campaign = 'dask'
